@@ -289,7 +289,14 @@ def gen_jobs(ch):
 def gen_fresh_aromatic(ch):
     """a random fused all-carbon aromatic system: most likely a topology this process has never kekulized"""
     from vf import gen_arom as GA
-    adj = GA.fused_system(ch, max_rings=4)
+    from vf import refkek as K
+    adj = None
+    for _ in range(4):
+        # prefer systems that do have a Kekule structure and are large enough to need augmenting paths
+        adj = GA.fused_system(ch, max_rings=5)
+        n = len(adj)
+        if n >= 12 and K.has_perfect_matching(n, [sorted(adj[i]) for i in range(n)]):
+            break
     wr = GM.write(GA.build(adj, {x: "c" for x in adj}), ch, variants=False)
     return wr["smiles"] if wr else "c1ccc2ccccc2c1"
 
